@@ -42,7 +42,8 @@ Section RT.
      Leaves are equal; configurations agree field by field (declared fields, then dynamic fields: same
      names in the same order, same values); identities, default marks and the storage order of _data are
      not compared.  The one normalisation Config.v produces: a list-of-configurations slot that held None
-     comes back as the empty list (ListField.to_python: ListProxy(cfg, field, value or [])). ---- *)
+     comes back as the empty list (ListField.to_python: ListProxy(cfg, field, value or [])); two such slots both
+     holding None are of course the same (never the outcome of a successful load). ---- *)
   Fixpoint same_slot (nd : node) (a b : val) {struct nd} : Prop :=
     let same_cfg := fun (fs : list (str * node)) (ca cb : cfg) =>
       (fix go (fs' : list (str * node)) : Prop :=
@@ -67,6 +68,7 @@ Section RT.
            | _, _ => False
            end) la lb
     | NCfgList _ _ _, VList la, VLeaf PNone => la = []
+    | NCfgList _ _ _, VLeaf x, VLeaf y => x = PNone /\ y = PNone
     | _, _, _ => False
     end.
 
@@ -101,6 +103,7 @@ Section RT.
            | _, _ => false
            end) la lb
     | NCfgList _ _ _, VList la, VLeaf PNone => is_nil la
+    | NCfgList _ _ _, VLeaf PNone, VLeaf PNone => true
     | _, _, _ => false
     end.
   Definition same_valuesb (fs : list (str * node)) (ca cb : cfg) : bool :=
